@@ -236,6 +236,43 @@ WFC = [
 ]
 
 
+def r02_5(facts, res, rule="R02-5", crates=("xml_info", "xml_parser", "xml_nom")):
+    """Error discipline of the tree builder: the well-formedness and validity checks report through `Result`.  `Result` is
+    `IntoIterator` (an `Err` yields nothing), so `flat_map(|v| checked(v))`, `flatten()` over results written as
+    `filter_map(Result::ok)` silently turn a refused item into an absent one.  Type-resolved: the adapter's type argument is a
+    `Result` whose error type belongs to the workspace."""
+    import re
+    st = res.rule(rule, instances=0, functions=0, adapters=0)
+    for f in facts.fns.values():
+        if f["crate"] not in crates or f.get("derived") or f.get("test"):
+            continue
+        st["functions"] += 1
+        for bi, t in facts.mir_calls(f):
+            c = t.get("callee")
+            if not c:
+                continue
+            n = facts.callee_name(c)
+            last = n.split("::")[-1]
+            if last not in ("flat_map", "filter_map", "flatten", "map_while"):
+                continue
+            st["adapters"] += 1
+            inst = str(c.get("pathargs", ""))
+            tail = inst.rsplit("::" + last, 1)[-1]
+            drops = (last == "flat_map" and re.match(r"::<std::result::Result<.*?, (error::|[a-z_]+::error::)?[A-Za-z:]*Error>", tail)) or \
+                (last in ("filter_map", "map_while") and re.search(r"std::result::Result::<.*Error>::ok\}", tail)) or \
+                (last == "flatten" and re.search(r"std::result::Result<[^{}]*Error>(, |>)", inst.split(" as std::iter::Iterator>")[0]))
+            if drops:
+                st["instances"] += 1
+                res.oblige(1, False)
+                res.add(Finding(rule, "%s|%s" % (facts.root_of(f)["path"] if hasattr(facts, "root_of") else f["path"], last),
+                                "%s feeds results of a fallible step to Iterator::%s: an Err yields no item, so the error of a refused "
+                                "item (well-formedness / validity check) is dropped instead of propagated" % (f["path"], last),
+                                f["file"], t.get("ln"), {}))
+    res.oblige(1, True)
+    if st["functions"] < 200:
+        raise BrokenCheck("%s: %d functions scanned (floor 200)" % (rule, st["functions"]))
+
+
 def run(facts, tier):
     res = Result("C02")
     res.explanation = (
@@ -263,10 +300,11 @@ def run(facts, tier):
                 res.add(Finding("R02-2", "%s|%s" % (name, chk.__name__), "well-formedness constraint %s: %s" % (name, why), None, None, {}))
     # No Recursion: the entity expansion cycle must be guarded
     from props import c03
-    roots = [facts.fn("xml_info::attr_value_from_name")["id"]]
+    roots = __import__("props.c11", fromlist=["x"]).expansion_roots(facts)
     reach, _ = facts.reachable(roots)
     c03.r03_3(facts, res, "R02-2r", reach, {})
     c01.r01_13(facts, res, "R02-3")
+    r02_5(facts, res)
     import guards
     guards.rule(facts, res, "R02-2g", [facts.fns[x] for x in reach if x in facts.fns], want=("G1", "G2", "G3", "G4", "G5"), floor=1)
     res.functions_analysed = res.extra["grammar"]["productions"]
